@@ -489,6 +489,14 @@ def run_schema(ctx, name, full, ns=""):
                 ext = "/Xyzzy" + str(ctx.rng.randint(0, 9))
                 cases.append((ns + sp + ext, long, form, ext, "ext"))
                 cases.append((ns + sp + ext + "/Qq-w", long, form, ext + "/Qq-w", "ext2"))
+                # the same path and extension again in other letter cases, on the same schema object: the remainder
+                # must be carried over as written *this* time, whatever spelling was resolved before (a lookup memo
+                # keyed by the folded text would hand back the earlier spelling's extension)
+                for e in (ext, ext + "/Qq-w"):
+                    for respell in (str.lower, str.upper, str.swapcase):
+                        t = respell(sp + e)
+                        if t != sp + e:
+                            cases.append((ns + t, long, form, t[len(sp):], "ext-respelled"))
                 # an extension that is itself a schema tag: INVALID_PARENT_NODE
                 other = ctx.rng.choice(longs).split("/")[-1]
                 if other != "#":
@@ -551,7 +559,7 @@ def run_schema(ctx, name, full, ns=""):
         if long is not None and rem is not None:
             # skip extension spellings whose first term is a real child (then a deeper node is the right answer)
             first = rem[1:].split("/")[0].casefold() if rem else ""
-            if kind in ("ext", "ext2") and first in known_shorts:
+            if kind in ("ext", "ext2", "ext-respelled") and first in known_shorts:
                 continue
             cl = oracle(HedTag, schema, text, long, form, rem, ns, r, (long + "/#") in longset)
             if cl:
